@@ -234,6 +234,7 @@ fn run_seq(seq: &[Op], n: usize) -> (Result<u64, String>, Ref, Vec<String>) {
 }
 
 fn main() {
+    std::panic::set_hook(Box::new(|_| {}));
     let args: Vec<String> = std::env::args().collect();
     let n: usize = args.get(1).map(|s| s.parse().unwrap()).unwrap_or(3);
     let max_len: usize = args.get(2).map(|s| s.parse().unwrap()).unwrap_or(4);
@@ -249,7 +250,11 @@ fn main() {
         idx.iter_mut().for_each(|x| *x = 0);
         loop {
             let seq: Vec<Op> = idx[..len].iter().map(|&k| all[k]).collect();
-            let (res, r, trace) = run_seq(&seq, n);
+            // a panic of the real ModuleGraph (index out of bounds after a broken removal, ...) is a violation with this history
+            let (res, r, trace) = match std::panic::catch_unwind(|| run_seq(&seq, n)) {
+                Ok(x) => x,
+                Err(_) => (Err(format!("the real ModuleGraph panics: a graph operation or query must not panic | trace: {:?}", seq)), Ref::default(), vec![]),
+            };
             seqs += 1;
             match res {
                 Ok(c) => checks += c,
